@@ -34,7 +34,7 @@ import (
 // ---------- workspace description and line protocol ----------
 
 type decl struct {
-	kind byte // 'b' bundle, 'f' file_set, 's' sub_builds
+	kind byte // 'b' bundle, 'f' file_set, 's' sub_builds, 'x' statements jsonx rejects (name = how, a[0] = how many)
 	name string
 	a    []string // b: deps, f: files, s: dirs
 	b    []string // f: includes
@@ -84,6 +84,9 @@ func (d decl) enc() string {
 		return "b~" + hs(d.name) + "~" + hlist(d.a, "+")
 	case 'f':
 		return "f~" + hs(d.name) + "~" + hlist(d.a, "+") + "~" + hlist(d.b, "+")
+	}
+	if d.kind == 'x' {
+		return "x~" + d.name + "~" + d.a[0]
 	}
 	return "s~" + hlist(d.a, "+")
 }
@@ -159,6 +162,8 @@ func parseOp(line string) (*wsOp, bool) {
 						f.decls = append(f.decls, decl{kind: 'b', name: string(hx.UnHex(x[1])), a: unlist(x[2], "+")})
 					case len(x) == 4 && x[0] == "f":
 						f.decls = append(f.decls, decl{kind: 'f', name: string(hx.UnHex(x[1])), a: unlist(x[2], "+"), b: unlist(x[3], "+")})
+					case len(x) == 3 && x[0] == "x":
+						f.decls = append(f.decls, decl{kind: 'x', name: x[1], a: []string{x[2]}})
 					case len(x) == 2 && x[0] == "s":
 						f.decls = append(f.decls, decl{kind: 's', a: unlist(x[1], "+")})
 					default:
@@ -216,6 +221,11 @@ func writeWorkspace(root string, o *wsOp) error {
 					fmt.Fprintf(&b, "    Include: %s,\n", qlist(d.b))
 				}
 				b.WriteString("}\n\n")
+			case 'x':
+				n, _ := strconv.Atoi(d.a[0])
+				for i := 0; i < n; i++ {
+					b.WriteString(garbageLine(d.name, i))
+				}
 			case 's':
 				fmt.Fprintf(&b, "sub_builds {\n    Dirs: %s,\n}\n\n", qlist(d.a))
 			}
@@ -230,6 +240,29 @@ func writeWorkspace(root string, o *wsOp) error {
 		}
 	}
 	return nil
+}
+
+// garbageLine: the i-th statement of a given kind that jsonx rejects
+func garbageLine(kind string, i int) string {
+	k := kind
+	if k == "mix" {
+		k = []string{"notype", "novalue", "nocolon", "unknowntype", "unknownfield", "unclosed"}[i%6]
+	}
+	switch k {
+	case "notype": // a statement that does not start with a type name
+		return fmt.Sprintf("%d\n", 100+i)
+	case "novalue":
+		return fmt.Sprintf("bundle { Name: }\n")
+	case "nocolon":
+		return fmt.Sprintf("bundle { Name \"g%d\" }\n", i)
+	case "unknowntype":
+		return fmt.Sprintf("no_such_rule_%d { Name: \"g%d\" }\n", i, i)
+	case "unknownfield":
+		return fmt.Sprintf("bundle { Name: \"g%d\", NoSuchField: 1 }\n", i)
+	case "unclosed":
+		return fmt.Sprintf("bundle { Name: \"g%d\", Deps: [ }\n", i)
+	}
+	return "{ }\n"
 }
 
 func classify(msg string) string {
@@ -278,6 +311,10 @@ func childRun(work string, n int, line string) string {
 	if errs != nil {
 		set := map[string]bool{}
 		for _, e := range errs {
+			if strings.HasPrefix(e.Code, "jsonx.") || strings.HasPrefix(e.Code, "lexing.") {
+				set["syntax"] = true // the build file does not parse / decode
+				continue
+			}
 			set[classify(e.Err.Error())] = true
 		}
 		var cs []string
@@ -444,6 +481,12 @@ func read(o *wsOp) *reading {
 		var ns []*onode
 		var subs []string
 		for _, d := range f.decls {
+			if d.kind == 'x' && d.a[0] != "0" {
+				r.errClasses["syntax"] = true
+				return
+			}
+		}
+		for _, d := range f.decls {
 			switch d.kind {
 			case 'b', 'f':
 				name := caco3.VerifMakeRelPath(p, d.name)
@@ -542,6 +585,23 @@ func (r *reading) analyse(o *wsOp) (reach map[string]bool, cycle, dangling bool)
 	return
 }
 
+func maxGarbage(o *wsOp) int {
+	m := 0
+	for _, f := range o.files {
+		n := 0
+		for _, d := range f.decls {
+			if d.kind == 'x' {
+				k, _ := strconv.Atoi(d.a[0])
+				n += k
+			}
+		}
+		if n > m {
+			m = n
+		}
+	}
+	return m
+}
+
 // judge evaluates the direct oracle on one implementation answer.
 func judge(o *wsOp, impl string) (key, desc string) {
 	key, desc = judge0(o, impl)
@@ -563,6 +623,9 @@ func judge0(o *wsOp, impl string) (key, desc string) {
 		what := map[string]string{"crash": "killed the process (stack overflow)", "hang": "did not return"}[impl]
 		if r.selfRef {
 			return "subbuilds-directory-read-twice", "loading a workspace in which a sub_builds directory resolves to a directory already read " + what
+		}
+		if n := maxGarbage(o); n > 0 {
+			return "loader-spins-after-error-cap", fmt.Sprintf("loading a build file with %d statements that do not parse %s (it must end with errors)", n, what)
 		}
 		return "loader-" + impl, "loading the workspace " + what
 	}
@@ -971,6 +1034,32 @@ func (g *gen) workDirs() {
 	}
 }
 
+// build files with many statements that do not parse: below, at and above the
+// cap of the error list (20), of every kind; loading ends with errors
+func (g *gen) syntaxErrors() {
+	b := func(n string, deps ...string) decl { return decl{kind: 'b', name: n, a: deps} }
+	x := func(kind string, n int) decl { return decl{kind: 'x', name: kind, a: []string{strconv.Itoa(n)}} }
+	for _, kind := range []string{"notype", "novalue", "nocolon", "unknowntype", "unknownfield", "unclosed", "mix"} {
+		for _, n := range []int{1, 19, 20, 21, 22, 25, 100} {
+			if kind != "notype" && kind != "mix" && n != 1 && n != 21 && n != 100 {
+				continue
+			}
+			g.add(&wsOp{dirs: []string{"p"}, targets: []string{"p/a"}, files: []bfile{
+				{dir: "p", decls: []decl{b("a", "c"), x(kind, n), b("c")}}}}, true)
+			g.rep.Count("syntax-errors:" + kind)
+		}
+	}
+	// errors spread over two files, one of them a sub-build; and errors in front of / behind the good part
+	g.add(&wsOp{dirs: []string{"p"}, targets: []string{"p/a"}, files: []bfile{
+		{dir: "p", decls: []decl{{kind: 's', a: []string{"q"}}, x("notype", 15), b("a")}},
+		{dir: "p/q", decls: []decl{x("mix", 15)}}}}, true)
+	g.add(&wsOp{dirs: []string{"p", "z"}, targets: []string{"z/a"}, files: []bfile{
+		{dir: "p", decls: []decl{x("notype", 30)}}, {dir: "z", decls: []decl{b("a")}}}}, true)
+	g.add(&wsOp{dirs: []string{"p"}, targets: []string{"p/a"}, files: []bfile{
+		{dir: "p", decls: []decl{b("a"), x("notype", 23)}}}}, true)
+	g.rep.Count("syntax-errors:spread")
+}
+
 // random graphs over several packages
 func (g *gen) randomGraphs(n int, maxRules int) {
 	for i := 0; i < n; i++ {
@@ -1155,6 +1244,26 @@ func shrink(o *wsOp, key string, run func(string) string) *wsOp {
 						}
 						return d.b
 					}
+					if cur.files[fi].decls[di].kind == 'x' {
+						if which == 0 { // fewer rejected statements instead of fewer list entries
+							have, _ := strconv.Atoi(cur.files[fi].decls[di].a[0])
+							for _, n := range []int{1, 2, 5, 10, 15, 19, 20, 21, 22, 25, 50} {
+								if n >= have {
+									break
+								}
+								t := cur
+								t.files = append([]bfile{}, cur.files...)
+								ds := append([]decl{}, cur.files[fi].decls...)
+								ds[di] = decl{kind: 'x', name: ds[di].name, a: []string{strconv.Itoa(n)}}
+								t.files[fi] = bfile{dir: cur.files[fi].dir, decls: ds}
+								if fails(&t) {
+									cur, changed = t, true
+									break
+								}
+							}
+						}
+						continue
+					}
 					for li := 0; li < len(get(cur.files[fi].decls[di])); li++ {
 						t := cur
 						t.files = append([]bfile{}, cur.files...)
@@ -1210,7 +1319,7 @@ func main() {
 	rep.Rule = "one op = one scratch workspace (bundle / file_set / sub_builds declarations over 1-3 packages, source files) + targets, " +
 		"built by the real Builder in a child process (every second op with AlwaysRebuild): all graphs of 2 rules over {r0, r1, source, missing} and of 3 (thorough: 4) rules over the rules x target subsets, " +
 		"every declaration permutation x target subset of fixed shapes (diamond, chain, self-loop, 2/4-cycle, cycle behind the memo, dangling, duplicate, output/rule collision, file sets, unnamed) and random 2-3 rule graphs, " +
-		"builders started in work dirs at depth 0..2 with relative, ./, ../ and absolute targets over same-named nodes, target lists with source files before, between and after rule targets, sub-build directory strings (., empty, x/.., q, /q, ../q ...) singly and in pairs, random multi-package graphs (duplicates across files, long cycles, dangling, collisions, unnamed), long chains; " +
+		"build files with 1..100 statements that do not parse (below, at, above the error cap), builders started in work dirs at depth 0..2 with relative, ./, ../ and absolute targets over same-named nodes, target lists with source files before, between and after rule targets, sub-build directory strings (., empty, x/.., q, /q, ../q ...) singly and in pairs, random multi-package graphs (duplicates across files, long cycles, dangling, collisions, unnamed), long chains; " +
 		"distinct = distinct op line; every op is non-trivial (it loads at least one build file)"
 	work := f.Work
 	if work == "" {
@@ -1253,6 +1362,7 @@ func main() {
 		g.sameLocalNames(f.Thorough())
 		g.sourceTargets()
 		g.workDirs()
+		g.syntaxErrors()
 		g.shapes()
 		g.longChains()
 		if f.Thorough() {
@@ -1275,19 +1385,32 @@ func main() {
 	defer c.stop()
 	impl := make([]string, len(ops))
 	patience := 30 * time.Second
+	confirmedHangs := 0
 	for i, op := range ops {
 		j.Risky(op)
-		impl[i] = c.run(op, patience)
-		if impl[i] == "hang" { // re-run alone before believing a clock
+		pt := patience
+		if strings.Contains(op, ":x~") || strings.Contains(op, "|x~") {
+			pt = 5 * time.Second // parsing a few hundred bytes; a spin is seen quickly
+		}
+		impl[i] = c.run(op, pt)
+		if impl[i] == "hang" && confirmedHangs < 2 { // re-run alone before believing a clock
 			for k := 0; k < 2 && impl[i] == "hang"; k++ {
-				impl[i] = c.run(op, 2*patience)
+				impl[i] = c.run(op, 2*pt)
+			}
+			if impl[i] == "hang" {
+				confirmedHangs++
 			}
 		}
 		rep.Count("answer:" + strings.SplitN(impl[i], " ", 2)[0])
 	}
 	j.Clear()
 
-	runOne := func(line string) string { return c.run(line, patience) }
+	runOne := func(line string) string {
+		if strings.Contains(line, ":x~") || strings.Contains(line, "|x~") {
+			return c.run(line, 5*time.Second)
+		}
+		return c.run(line, patience)
+	}
 	shrunk := map[string]int{}
 	for i, op := range ops {
 		o, ok := parseOp(op)
